@@ -96,8 +96,11 @@ def c05_pncexpr_wrap(v, spec):
     if v['kind'] != 'result-aliases-input:fn_pncexpr':
         return False
     same = {a for a, b in v.get('shared', []) if a == b}
-    names = {d.split(':')[0] for d in v.get('diffs', ['?'])}
-    return bool(names) and names <= same
+    # (the wrapper exposes the input's dimension objects as well)
+    names = {d.split(':')[0] for d in v.get('diffs', ['?'])
+             if not d.startswith('dimensions ')}
+    return names <= same and (bool(names) or all(
+        d.startswith('dimensions ') for d in v.get('diffs', ['?'])))
 
 
 @pred('C06-mask-values-integer')
